@@ -826,10 +826,13 @@ class World:
         rec['frames_sync'] = len(self.stream.frames) - n0
         return rec
 
-    def req(self, _command, _cid=b'cid', **props):
+    def req(self, _command, _cid=b'cid', _cast=False, **props):
         self.next_mid += 1
         mid = 'm%d' % self.next_mid
-        payload = json.dumps({'id': mid, 'command': _command, 'properties': props}).encode()
+        msg = {'id': mid, 'command': _command, 'properties': props}
+        if _cast:
+            msg['msg_type'] = 'cast'         # fire and forget: the daemon sends no reply
+        payload = json.dumps(msg).encode()
         self.send_raw(payload, cid=_cid, mid=mid, meta={'cmd': _command, 'props': props})
         return mid
 
